@@ -5,7 +5,7 @@
    handlers make (GetHeaderByHash, GetPreviousHeader, GetAncestorOnHeight ...).  Every theorem quantifies
    over all [env]s; [mkenv] builds a concrete one from a table of rows for the correspondence check.
 
-   A request is a route plus parameter CLASSES (the Go harness concretises each class into many HTTP requests
+   A request is a route plus argument CLASSES (the Go harness concretises each class into many HTTP requests
    and classifies every concrete request back).  [respond_gen fx] is parameterised by the set of repaired
    call sites [fx]:  [respond] = nothing repaired (the tree as it was found), [respond_fixed] = everything
    repaired (build/proposed-fixes/C16-*.diff), [respond_current] = what the driver uses for the tree at HEAD.
@@ -32,17 +32,17 @@ Record env := {
 }.
 
 (* ------------------------------------------------------------------------------------------------ *)
-(* requests: route x parameter classes                                                                *)
+(* requests: route x argument classes                                                                 *)
 
 Inductive href := HK (i : nat) | HUnk | HMal.       (* a hash string: known row i / well-formed unknown / malformed *)
-Inductive iparam := IMissing | IEmpty | INum (z : Z) | IJunk.  (* a query parameter handed to strconv.Atoi *)
+Inductive iparam := IMissing | IEmpty | INum (z : Z) | IJunk.  (* a query argument handed to strconv.Atoi *)
 Inductive badkind := BadSyntax | BadType | BadEmpty | BadRange | BadForm | BadProto.
 Inductive sbody := SList (l : list href) | SNull | SBad (k : badkind).       (* body bound to []string *)
 Inductive vbody := VList (n : nat) | VNull | VBad (k : badkind).             (* body bound to []MerkleRootConfirmationRequestItem *)
 Inductive uref := UEmpty | UNew | UActive | UInactive.                         (* a webhook url: empty / not registered / registered *)
 Inductive wbody := WOk (u : uref) | WPartial (u : uref) | WBad (k : badkind). (* body bound to webhook.Request *)
 Inductive mref := MNone | MK (i : nat) | MUnk.                                 (* lastEvaluatedKey *)
-Inductive tref := TKnown | TOther.                                             (* token path parameter *)
+Inductive tref := TKnown | TOther.                                             (* token path argument *)
 
 (* server started with auth disabled, or enabled and the class of the Authorization header *)
 Inductive auth := AuthOff | AuthNone | AuthBadFmt | AuthUnk | AuthUser | AuthAdmin.
@@ -128,7 +128,7 @@ Definition finish (ws : list write) (eff : effect) : response :=
   {| r_status := match ws with (s, _) :: _ => s | [] => 200 end; r_body := docs_of ws; r_eff := eff |}.
 
 (* ------------------------------------------------------------------------------------------------ *)
-(* parameter handling                                                                                 *)
+(* argument handling                                                                                  *)
 
 (* strconv.Atoi on a 64-bit platform *)
 Definition atoi (p : iparam) : option Z :=
@@ -257,12 +257,12 @@ Definition all_fixes : fixes := {| fx_byheight := true; fx_common_empty := true;
 
 (* THE SWITCH: which call sites are repaired in /repo at HEAD.  Flip a field to [true] when the corresponding
    build/proposed-fixes/C16-<n>.diff has been applied as a fix: commit (and move the finding to status fixed). *)
-Definition current_fixes : fixes := {| fx_byheight := false;      (* C16-1 *)
-                                       fx_common_empty := false;  (* C16-2 *)
-                                       fx_common_nil := false;    (* C16-3 *)
-                                       fx_webhook := false;       (* C16-4 *)
-                                       fx_verify := false;        (* C16-5 *)
-                                       fx_accget := false |}.     (* C16-6 *)
+Definition current_fixes : fixes := {| fx_byheight := true;      (* C16-1 *)
+                                       fx_common_empty := true;  (* C16-2 *)
+                                       fx_common_nil := true;    (* C16-3 *)
+                                       fx_webhook := true;       (* C16-4 *)
+                                       fx_verify := true;        (* C16-5 *)
+                                       fx_accget := true |}.     (* C16-6 *)
 
 (* ------------------------------------------------------------------------------------------------ *)
 (* middleware: transports/http/auth                                                                   *)
